@@ -368,6 +368,40 @@ def check(run):
                                              if arithmetic else "not an exact inequality of sorted neighbours"),
                           key=key_of("C06-R8", "nondupe", "arith" if arithmetic else "form"))
     run.floor("neighbour-mask definitions in group()", len(defs), 2)
+    # ------------------------------------------------------------------ R9 a sort applied on top of a sort must be stable
+    run.rule("R9", "grouping.py: an argsort of data that was already permuted by another argsort (a two-key sort done in two passes) asks for a stable sort; "
+                   "np.lexsort / a single sort need nothing")
+    n9 = 0
+    for f in ix.all_functions:
+        if f.module is not mod:
+            continue
+        pf = None
+        for c in ast.walk(f.node):
+            if not isinstance(c, ast.Call):
+                continue
+            fn_txt = ast.unparse(c.func)
+            is_fn = fn_txt in ("np.argsort", "numpy.argsort") and c.args
+            is_m = isinstance(c.func, ast.Attribute) and c.func.attr == "argsort" and not fn_txt.startswith(("np.", "numpy."))
+            if not (is_fn or is_m):
+                continue
+            pf = pf or Prov(ix, f)
+            st_ = pf.stmt_of(c)
+            if st_ is None:
+                continue
+            subject = pf.canon(c.args[0] if is_fn else c.func.value, st_)
+            n9 += 1
+            # the sorted data is `X[<an argsort>]`: the order produced by the first pass must survive the second
+            chained = re.search(r"\[[^\[\]]*argsort\(", subject) is not None
+            kind = next((ast.unparse(k.value) for k in c.keywords if k.arg == "kind"), None)
+            stable = kind in ("'stable'", "'mergesort'")
+            ok = (not chained) or stable
+            run.instance("R9", f"{f.module.rel}:{c.lineno} {f.qualname}", f"argsort of `{subject[:60]}`: chained on another argsort: {chained}, kind={kind}", ok)
+            if not ok:
+                run.violation("R9", f"{f.module.rel}:{c.lineno} {f.qualname}",
+                              f"`{ast.unparse(c)[:70]}` sorts data that an earlier argsort had ordered, with the default (unstable) algorithm: equal keys of the "
+                              f"second pass lose the order of the first, so 'first element of each group' is no longer its minimum / the groups are no longer ordered",
+                              key=key_of("C06-R9", f.qualname, "unstable-chained-argsort"))
+    run.floor("argsort calls in grouping.py", n9, 3)
     run.assume("element values are bounded only by the range guard read from the source; row count is irrelevant to the packing")
     run.assume("np.bitwise_xor/or/add of fields occupying disjoint bit ranges is injective (arithmetic fact)")
     return {
